@@ -76,10 +76,10 @@ package prolog
 //@   bind v = engine.(*Env).Resolve#1
 //@   modifies *d
 //@   at-call engine.(*Env).Resolve requires[resolves-the-answer] a0 == env && a1 == t
-//@   bind text = fmt.Stringer.String#1
+//@   bind txt = fmt.Stringer.String#1
 //@   at-call fmt.Stringer.String requires[the-text-of-the-answer-itself] a0 == v
-//@   ensures[exact-or-error] result == nil ==> called(text) && *d == text
-//@   ensures[no-text-is-an-error-and-stores-nothing] !called(text) ==> result == errConversion && *d == old(*d)
+//@   ensures[exact-or-error] result == nil ==> called(txt) && *d == txt
+//@   ensures[no-text-is-an-error-and-stores-nothing] !called(txt) ==> result == errConversion && *d == old(*d)
 //@   ensures[closed] result == nil || result == errConversion
 
 //@ -- Scan into a slice: every element of the list is converted, in the answer's environment, into the slot appended for
@@ -99,6 +99,15 @@ package prolog
 //@   at-call convertAssign requires[the-current-element-in-the-answer-s-environment] called(cur) && a2 == cur && a1 == vm && a3 == env
 //@   at-call convertAssign requires[each-element-is-converted-into-the-slot-appended-for-it] a0 == reflect.Value.Interface(reflect.Value.Addr(reflect.Value.Index(local(v, reflect.Value), reflect.Value.Len(local(v, reflect.Value)) - 1)))
 //@   ensures[a-list-that-does-not-end-properly-is-an-error] called(ierr) && ierr != nil ==> result == errConversion
+//@   bind cerr = convertAssign#1
+//@   loop 1 maintains[no-element-is-passed-over-after-a-failed-conversion] called(cerr) && cerr == nil
+//@   ensures[an-element-that-cannot-be-converted-fails-the-scan] called(cerr) && cerr != nil ==> result == cerr
+//@   ensures[a-destination-that-is-not-a-pointer-to-a-slice-is-an-error] reflect.Value.Kind(reflect.Value.Elem(reflect.ValueOf(d))) != 23 ==> result == errConversion
+//@   at-call reflect.Value.SetLen requires[the-old-contents-of-the-destination-are-dropped-first] a0 == reflect.Value.Elem(reflect.ValueOf(d)) && a1 == 0
+//@   at-call reflect.Append requires[one-slot-is-appended-for-the-element-to-the-slice-built-so-far] a0 == v && len(a1) == 1
+//@   at-call reflect.Value.Set requires[the-destination-receives-the-slice-built] a0 == reflect.Value.Elem(reflect.ValueOf(d)) && a1 == local(v, reflect.Value)
+//@   at-store ListIterator.List requires[the-elements-of-the-list-to-scan] v == t
+//@   at-store ListIterator.Env requires[in-the-answer-s-environment] v == env
 
 //@ ---------------------------------------------------------------- the Solutions iterator as a sequential typestate (C12)
 //@ -- ghost field exhausted(s): 1 once a receive on s.next has found the channel closed (the producer goroutine has finished
@@ -115,7 +124,7 @@ package prolog
 //@   ensures[finished-means-false-without-communication] old(s.closed) || old(s.done) ==> !result && ghost(chanops) == 0
 //@   ensures[false-means-finished] !result ==> s.closed || s.done
 //@   ensures[true-means-an-answer-was-received] result ==> gf(exhausted, s) == 0 && !s.done && ghost(chanops) == 2
-//@   ensures[the-answer-received-is-the-one-scan-will-read] result ==> s.env == received(next)
+//@   at-store Solutions.env requires[the-answer-received-is-the-one-scan-will-read] target == s && v == received(next)
 //@   ensures[the-error-of-the-query-is-kept] s.err == old(s.err) && s.vm == old(s.vm) && s.more == old(s.more) && s.next == old(s.next)
 //@   ensures[next-never-closes] s.closed == old(s.closed) && ghost("closed:more") == 0
 
@@ -159,6 +168,13 @@ package prolog
 //@   at-call convertAssign requires[the-current-element-in-the-answer-s-environment] called(cur) && a2 == cur && a1 == vm && a3 == env
 //@   bind ierr = engine.(*ListIterator).Err#1
 //@   ensures[a-list-that-does-not-end-properly-is-an-error] called(ierr) && ierr != nil ==> result == errConversion
+//@   bind cerr = convertAssign#1
+//@   loop 1 maintains[no-element-is-passed-over-after-a-failed-conversion] called(cerr) && cerr == nil
+//@   ensures[an-element-that-cannot-be-converted-fails-the-scan] called(cerr) && cerr != nil ==> result == cerr
+//@   at-store ListIterator.List requires[the-elements-of-the-answer-itself] v == local(t, engine.Compound)
+//@   at-store ListIterator.Env requires[in-the-answer-s-environment] v == env
+//@   at-call append requires[one-slot-is-appended-for-the-element-to-the-slice-built-so-far] a0 == s && len(a1) == 1
+//@   ensures[a-list-is-the-slice-of-all-the-slots-filled] v is engine.Compound && result == nil ==> *d == s
 //@   ensures[anything-else-is-an-error] !(v is engine.Variable) && !(v is engine.Atom) && !(v is engine.Integer) && !(v is engine.Float) && !(v is engine.Compound) ==> result == errConversion
 
 //@ -- the producer's answer continuation: hands the answer over, waits for the consumer's request, and ends the run
@@ -180,8 +196,21 @@ package prolog
 //@   property C12 C15
 //@   requires s != nil
 //@   nosafety
-//@   checks only at-call at-call-missing
+//@   checks only at-call at-call-missing maintains
 //@   fresh-per-iteration convertAssign#2 0 reflect.New
+//@   at-call convertAssign#1 requires[a-struct-field-receives-the-variable-of-its-own-name] has(local(fields, map[string]any), engine.Atom.String(local(v, engine.ParsedVariable).Name)) &&
+//@       a0 == local(fields, map[string]any)[engine.Atom.String(local(v, engine.ParsedVariable).Name)]
+//@   at-call reflect.Type.Field requires[the-name-and-the-tag-are-those-of-the-i-th-field] a1 == local(i, int)
+//@   at-call reflect.StructTag.Lookup requires[the-alias-is-the-prolog-key-of-that-field-s-tag] a0 == local(f, reflect.StructField).Tag && a1 == "prolog"
+//@   bind fld = reflect.Type.Field#1
+//@   at-call reflect.Value.Field requires[the-address-registered-is-that-of-the-field-whose-name-was-read] called(fld) && a0 == local(o, reflect.Value) && a1 == argof(fld, 1)
+//@   at-call reflect.Value.Addr#1 requires[the-address-of-that-field] a0 == reflect.Value.Field(local(o, reflect.Value), argof(fld, 1))
+//@   at-call reflect.Value.Interface#1 requires[the-address-of-that-field] a0 == reflect.Value.Addr(reflect.Value.Field(local(o, reflect.Value), argof(fld, 1)))
+//@   loop 2 maintains[a-field-is-registered-by-its-address-under-its-alias-or-else-its-name] called(fld) && has(fields, name) &&
+//@       fields[name] == reflect.Value.Interface(reflect.Value.Addr(reflect.Value.Field(o, argof(fld, 1)))) && (name == alias || name == fld.Name) && (len(alias) > 0 ==> name == alias)
+//@   at-call reflect.Value.SetMapIndex requires[a-map-entry-is-the-value-converted-in-this-iteration-under-the-name-of-its-variable] a0 == local(o, reflect.Value) &&
+//@       a1 == reflect.ValueOf(engine.Atom.String(local(v, engine.ParsedVariable).Name)) && a2 == reflect.Value.Elem(local(dest, reflect.Value))
+//@   at-call convertAssign#2 requires[into-the-destination-allocated-in-this-iteration] a0 == reflect.Value.Interface(local(dest, reflect.Value))
 //@   at-call convertAssign requires[the-variable-of-that-name-in-the-current-answer-s-environment] a1 == s.vm && a2 == local(v, engine.ParsedVariable).Variable && a3 == s.env
 
 //@ -- the producer goroutine (sequential view): starts the search only when the consumer asks for an answer, keeps the
